@@ -17,6 +17,9 @@ use vcore::model::int::{classify_uint, UintClass};
 use vcore::{vensure, Fnv, Src};
 
 pub struct Env {
+    /// the main coin's puzzle is `(a 2 3)` (run the first solution element as a
+    /// program) instead of a tagged identity
+    pub apply_puzzle: bool,
     pub main: Coin3,
     pub main_id: [u8; 32],
     pub main_tag: u8,
@@ -27,7 +30,18 @@ pub struct Env {
 
 const MSGS: [&[u8]; 4] = [b"", b"hello", &[0x42; 32], &[1]];
 
-fn gen_env(s: &mut Src<'_>) -> Env {
+/// `(a 2 3)`: runs the first element of the solution with the rest as its
+/// environment — lets a condition list contain *computed* atoms
+fn apply_puzzle() -> &'static (Vec<u8>, [u8; 32]) {
+    static P: std::sync::OnceLock<(Vec<u8>, [u8; 32])> = std::sync::OnceLock::new();
+    P.get_or_init(|| {
+        let mut t = Tree::new();
+        let p = N::L(vec![a(&[2]), a(&[2]), a(&[3])]).to_tree(&mut t);
+        (t.serialize(p), vcore::model::treehash::tree_hash(&t, p))
+    })
+}
+
+fn gen_env(s: &mut Src<'_>, apply: bool) -> Env {
     let phs = condgen::tag_puzzle_hashes();
     let main_tag = s.below(3) as u8 + 1;
     let helper_tag = s.below(3) as u8 + 4;
@@ -39,9 +53,10 @@ fn gen_env(s: &mut Src<'_>) -> Env {
         2 => condgen::interesting_u64(s) >> 2,
         _ => s.u64() >> 4,
     };
-    let main: Coin3 = (parent, phs[(main_tag - 1) as usize], amount);
+    let main: Coin3 = (parent, if apply { apply_puzzle().1 } else { phs[(main_tag - 1) as usize] }, amount);
     let helper: Coin3 = ([0xee; 32], phs[(helper_tag - 1) as usize], u64::MAX);
     Env {
+        apply_puzzle: apply,
         main,
         main_id: mc::coin_id(&main.0, &main.1, main.2),
         main_tag,
@@ -368,7 +383,7 @@ pub fn scan(t: &Tree, list: Tid) -> Scan {
 // ---------------------------------------------------------------------------
 // mutations L -> L'
 
-pub const MUTATIONS: [&str; 15] = [
+pub const MUTATIONS: [&str; 16] = [
     "identical",
     "atom-changed-valid",
     "atom-bytes-edited",
@@ -384,6 +399,7 @@ pub const MUTATIONS: [&str; 15] = [
     "condition-duplicated",
     "opcode-changed",
     "bytes-moved:two-announcements",
+    "hint-empty-computed",
 ];
 
 fn op_of(c: &N) -> Option<u8> {
@@ -568,18 +584,35 @@ fn mutate(m: usize, s: &mut Src<'_>, env: &Env, l: &[N]) -> Option<Vec<N>> {
         }
         5 => {
             // (op v)(REMARK) -> (op v‖01): the argument absorbs the REMARK opcode
+            // (for CREATE_COIN the absorbing atom is the hint: an absent hint
+            // becomes the one-byte hint 0x01, a short hint grows by one byte)
+            let hint_can_grow = |c: &N| -> bool {
+                let N::L(v) = c else { return false };
+                op_of(c) == Some(51) && (v.len() == 3 || matches!(&v[3], N::L(m) if m.len() == 1 && matches!(&m[0], N::A(h) if h.len() < 32)))
+            };
             let cand: Vec<usize> = (0..n.saturating_sub(1))
-                .filter(|i| matches!(op_of(&out[*i]), Some(52 | 60 | 62 | 80..=87)) && op_of(&out[i + 1]) == Some(1))
+                .filter(|i| (matches!(op_of(&out[*i]), Some(52 | 60 | 62 | 80..=87)) || hint_can_grow(&out[*i])) && op_of(&out[i + 1]) == Some(1))
                 .collect();
             if cand.is_empty() {
-                let i = pick_where(s, &out, &|c| matches!(op_of(c), Some(60 | 62 | 81 | 83 | 85 | 87)))?;
+                let i = pick_where(s, &out, &|c| matches!(op_of(c), Some(60 | 62 | 81 | 83 | 85 | 87)) || hint_can_grow(c))?;
                 out.insert(i + 1, N::L(vec![a(&[1])]));
                 return Some(out);
             }
             let i = cand[s.below(cand.len())];
+            let is_cc = op_of(&out[i]) == Some(51);
             let v = items_mut(&mut out[i])?;
-            let N::A(x) = &mut v[1] else { return None };
-            x.push(1);
+            if is_cc {
+                if v.len() == 3 {
+                    v.push(N::L(vec![a(&[1])]));
+                } else {
+                    let N::L(m) = &mut v[3] else { return None };
+                    let N::A(h) = &mut m[0] else { return None };
+                    h.push(1);
+                }
+            } else {
+                let N::A(x) = &mut v[1] else { return None };
+                x.push(1);
+            }
             out.remove(i + 1);
         }
         6 => {
@@ -691,6 +724,14 @@ fn mutate(m: usize, s: &mut Src<'_>, env: &Env, l: &[N]) -> Option<Vec<N>> {
             };
             items_mut(&mut out[i])?[0] = a(&[new]);
         }
+        15 => {
+            // handled by the caller (needs the computing puzzle): L' gets an
+            // empty first memo, L a hint-less shape
+            let i = pick_where(s, &out, &|c| op_of(c) == Some(51))?;
+            let v = items_mut(&mut out[i])?;
+            v.truncate(3);
+            v.push(N::L(vec![nil()]));
+        }
         _ => {
             // (op x)(op y) -> same concatenation, other boundary
             let cand: Vec<usize> = (0..n.saturating_sub(1)).filter(|i| matches!(op_of(&out[*i]), Some(60 | 62)) && matches!(op_of(&out[i + 1]), Some(60 | 62))).collect();
@@ -736,12 +777,49 @@ struct Run {
     result: Result<OwnedSpendBundleConditions, String>,
 }
 
+fn quote(n: N) -> N {
+    pair(a(&[1]), n)
+}
+fn cons(x: N, y: N) -> N {
+    N::L(vec![a(&[4]), x, y])
+}
+
+/// a program evaluating to the list `l`, in which the first memo of the
+/// CREATE_COIN at index `i` (an empty atom) is *computed* as
+/// `(substr "hello" 1 1)`: an empty atom that is not the allocator's nil node
+fn computing_program(l: &[N], i: usize) -> N {
+    let N::L(items) = &l[i] else { unreachable!() };
+    let empty = N::L(vec![a(&[12]), quote(a(b"hello")), quote(a(&[1])), quote(a(&[1]))]);
+    let memos = cons(empty, quote(nil()));
+    let cond = cons(quote(items[0].clone()), cons(quote(items[1].clone()), cons(quote(items[2].clone()), cons(memos, quote(nil())))));
+    let mut acc = cons(cond, quote(N::L(l[i + 1..].to_vec())));
+    for c in l[..i].iter().rev() {
+        acc = cons(quote(c.clone()), acc);
+    }
+    acc
+}
+
 fn run_list(env: &Env, l: &[N], helper_extra: &[N], flags: ConsensusFlags) -> Run {
+    run_list_computed(env, l, helper_extra, flags, None)
+}
+
+fn run_list_computed(env: &Env, l: &[N], helper_extra: &[N], flags: ConsensusFlags, computed: Option<usize>) -> Run {
     let mut tree = Tree::new();
     let list = N::L(l.to_vec()).to_tree(&mut tree);
+    let (puzzle, solution) = if env.apply_puzzle {
+        let prog = match computed {
+            Some(i) => computing_program(l, i),
+            None => quote(N::L(l.to_vec())),
+        };
+        let mut t2 = Tree::new();
+        let sol = N::L(vec![prog]).to_tree(&mut t2);
+        (apply_puzzle().0.clone(), t2.serialize(sol))
+    } else {
+        (puzzle_bytes(env.main_tag), tree.serialize(list))
+    };
     let result = run_bundle(
         &[
-            (env.main, puzzle_bytes(env.main_tag), tree.serialize(list)),
+            (env.main, puzzle, solution),
             (env.helper, puzzle_bytes(env.helper_tag), helper_solution(helper_extra)),
         ],
         flags,
@@ -777,8 +855,31 @@ pub fn check_eligibility(sp: &OwnedSpendConditions, sc: &Scan, what: &str, ctx: 
     Ok(())
 }
 
-fn summary_eq(o1: &OwnedSpendBundleConditions, o2: &OwnedSpendBundleConditions) -> Result<(), String> {
-    let (a1, a2) = (&o1.spends[0], &o2.spends[0]);
+pub const SIG_EMPTY_HINT: &str = "C19:fingerprint:equal-but-empty-hint-reported-differently";
+
+/// Err((only_empty_hint, description))
+fn summary_eq(o1: &OwnedSpendBundleConditions, o2: &OwnedSpendBundleConditions) -> Result<(), (bool, String)> {
+    let r = summary_eq_inner(o1, o2, false);
+    match r {
+        Ok(()) => Ok(()),
+        Err(d) => Err((summary_eq_inner(o1, o2, true).is_ok(), d)),
+    }
+}
+
+fn summary_eq_inner(o1: &OwnedSpendBundleConditions, o2: &OwnedSpendBundleConditions, empty_hint_is_none: bool) -> Result<(), String> {
+    let norm = |sp: &OwnedSpendConditions| -> OwnedSpendConditions {
+        let mut sp = sp.clone();
+        if empty_hint_is_none {
+            for c in &mut sp.create_coin {
+                if c.2.as_ref().is_some_and(|h| h.is_empty()) {
+                    c.2 = None;
+                }
+            }
+            sp.create_coin.sort();
+        }
+        sp
+    };
+    let (a1, a2) = (&norm(&o1.spends[0]), &norm(&o2.spends[0]));
     macro_rules! same {
         ($($f:ident),*) => { $( if a1.$f != a2.$f { return Err(format!("spend.{}: {:?} vs {:?}", stringify!($f), a1.$f, a2.$f)); } )* };
     }
@@ -793,8 +894,10 @@ fn summary_eq(o1: &OwnedSpendBundleConditions, o2: &OwnedSpendBundleConditions) 
 
 pub fn case_pairs(bytes: &[u8], ctx: &mut Ctx) -> CaseResult {
     let mut s = Src::new(bytes);
-    let env = gen_env(&mut s);
-    let m = s.weighted(&[2, 14, 8, 10, 10, 8, 10, 8, 8, 8, 6, 4, 4, 4, 8]);
+    let m = s.weighted(&[2, 14, 8, 10, 10, 8, 10, 8, 8, 8, 6, 4, 4, 4, 8, 3]);
+    // a tenth of the ordinary pairs also go through the computing puzzle
+    let apply = m == 15 || s.chance(26);
+    let env = gen_env(&mut s, apply);
     let mut ms = s.sub(24);
     let mut labels = vec![];
     let (mut l1, _) = gen_list(&mut s, &env, false, &mut labels);
@@ -824,11 +927,25 @@ pub fn case_pairs(bytes: &[u8], ctx: &mut Ctx) -> CaseResult {
         // the other direction: L has the merged atom, L′ the separate conditions
         std::mem::swap(&mut l1, &mut l2);
     }
+    let mut computed = None;
+    if m == 15 {
+        // L' has the (computed) empty first memo at index i; L gets a shape without hint
+        let i = (0..l2.len()).find(|i| matches!(&l2[*i], N::L(v) if v.len() == 4 && v[3] == N::L(vec![nil()]) && v[0] == a(&[51]))).expect("mutated CREATE_COIN");
+        computed = Some(i);
+        let N::L(v) = &mut l1[i] else { unreachable!() };
+        v.truncate(3);
+        if let Some(mm) = memo_shape(*ms.pick(&[0usize, 1, 4, 6, 5]), 0) {
+            v.push(mm);
+        }
+    }
+    if env.apply_puzzle {
+        ctx.label("puzzle:apply-first-of-solution");
+    }
     ctx.label(format!("mutation:{mname}"));
     ctx.render(|| format!("coin={} mutation={mname}\n L  = {}\n L' = {}", crate::util::coin_str(&env.main), render_list(&l1), render_list(&l2)));
 
     let r1 = run_list(&env, &l1, &[], FLAGS);
-    let r2 = run_list(&env, &l2, &[], FLAGS);
+    let r2 = run_list_computed(&env, &l2, &[], FLAGS, computed);
     let lists_differ = r1.tree.serialize(r1.list) != r2.tree.serialize(r2.list);
     let sc1 = scan(&r1.tree, r1.list);
     let sc2 = scan(&r2.tree, r2.list);
@@ -888,11 +1005,26 @@ pub fn case_pairs(bytes: &[u8], ctx: &mut Ctx) -> CaseResult {
         sc1.seq,
         sc2.seq
     );
-    if let Err(d) = summary_eq(o1, o2) {
-        return Err(vcore::engine::Failure {
-            sig: "C19:fingerprint:equal-for-different-summaries".into(),
-            msg: format!("equal fingerprints but different summaries ({d}):\n L  = {}\n L' = {}", render_list(&l1), render_list(&l2)),
-        });
+    match summary_eq(o1, o2) {
+        Ok(()) => {}
+        Err((true, d)) => {
+            // same root cause as the C01 finding: an empty first memo that is
+            // not the allocator's nil node is reported as hint Some(b"")
+            ctx.known_or_fail(SIG_EMPTY_HINT, || {
+                format!(
+                    "two accepted, dedup-eligible spends of coin {} have equal fingerprints, equal parsed conditions by value, but their summaries differ in a hint that is None vs Some(empty) ({d}):\n L  = {}\n L' = {} (the empty first memo is computed by the puzzle as (substr \"hello\" 1 1))",
+                    hex(&env.main_id),
+                    render_list(&l1),
+                    render_list(&l2)
+                )
+            })?;
+        }
+        Err((false, d)) => {
+            return Err(vcore::engine::Failure {
+                sig: "C19:fingerprint:equal-for-different-summaries".into(),
+                msg: format!("equal fingerprints but different summaries ({d}):\n L  = {}\n L' = {}", render_list(&l1), render_list(&l2)),
+            });
+        }
     }
     Ok(())
 }
@@ -948,7 +1080,7 @@ pub fn case_eligibility(bytes: &[u8], ctx: &mut Ctx) -> CaseResult {
         }
     } else {
         // ---- targeted: one coin + helper, with signature / message / value features
-        let env = gen_env(&mut s);
+        let env = gen_env(&mut s, false);
         let mut labels = vec![];
         let (l, extra) = gen_list(&mut s, &env, true, &mut labels);
         ctx.ran_dry(s.ran_dry());
